@@ -5,6 +5,8 @@ A *state* of the reference model is a stack of scopes, each mapping the one trac
 (mutable, type).  The alphabet:
 
     D   def v: Int := 1          F   def fin v: Int := 2        S   def v: Str := "s"     (re-definitions shadow)
+    G   def fin v: Int           N   def v: Int                 (declared without a value: a later read is unspecified, the
+                                                                 program is then not generated; assigning to G is assigning to a fin)
     A   v := 3                   U   def u<k>: Int := idi(v)    T   def t<k>: Str := ids(v)
     blocks (push a scope, run the inner sequence, pop it):
     I   if c then <seq>                      J   if c then <seq> else print         K   if c then print else <seq>
@@ -22,7 +24,7 @@ wrong-type-assign -> C05; a legal program is judged by C07 if it assigns, else b
 """
 
 IND = "    "
-SIMPLE = "DFSAUT"
+SIMPLE = "DFSGNAUT"
 BLOCKS_QUICK = "IJLM"
 BLOCKS_ALL = "IJKLWMH"
 
@@ -49,6 +51,7 @@ class Model:
         self.faults = []   # (statement index in pre-order, reason)
         self.k = 0
         self.out = []      # what the program prints (every block body runs exactly once)
+        self.unspecified = False   # a declared-only variable is read
 
     def lookup(self):
         for sc in reversed(self.stack):
@@ -74,6 +77,10 @@ class Model:
                 self.stack[-1]["v"] = [False, "Int", "2"]
             elif st == "S":
                 self.stack[-1]["v"] = [True, "Str", "s"]
+            elif st == "G":
+                self.stack[-1]["v"] = [False, "Int", None]
+            elif st == "N":
+                self.stack[-1]["v"] = [True, "Int", None]
             elif st == "A":
                 if cur is None:
                     self.faults.append((idx, "undefined-assign"))
@@ -89,6 +96,8 @@ class Model:
                     self.faults.append((idx, "undefined-use"))
                 elif cur[1] != want:
                     self.faults.append((idx, "wrong-type-use"))
+                elif cur[2] is None:
+                    self.unspecified = True
                 else:
                     self.out.append(cur[2])
 
@@ -106,8 +115,8 @@ def flat_prints(seq):
                 run(st[1])
                 if st[0] in "MH":
                     out.append("%s%d" % ("a" if st[0] == "M" else "h", idx))
-            elif st in "DFS":
-                cell[0] = {"D": "1", "F": "2", "S": "s"}[st]
+            elif st in "DFSGN":
+                cell[0] = {"D": "1", "F": "2", "S": "s", "G": "None", "N": "None"}[st]   # a declaration without value is emitted as `v = None`
             elif st == "A":
                 cell[0] = "3"
             else:
@@ -159,7 +168,7 @@ class Render:
                     self.seq(inner, ind + 2, lines)
                     lines += [p + IND * 2 + 'print("h%d")' % idx]
                 continue
-            text = {"D": "def v: Int := 1", "F": "def fin v: Int := 2", "S": 'def v: Str := "s"', "A": "v := 3",
+            text = {"D": "def v: Int := 1", "F": "def fin v: Int := 2", "S": 'def v: Str := "s"', "A": "v := 3", "G": "def fin v: Int", "N": "def v: Int",
                     "U": "def u%d: Int := idi(v)" % idx, "T": "def t%d: Str := ids(v)" % idx}[st]
             lines.append(p + text)
             if st in "UT":
@@ -221,6 +230,8 @@ def cases(prop, tier, hosts=None):
                 continue
             m = Model()
             m.run(seq)
+            if m.unspecified:
+                continue
             if m.faults:
                 judge = JUDGE[m.faults[0][1]]
             else:
